@@ -120,6 +120,10 @@ type c10Base struct {
 	name    string
 	ops     []string
 	content string // bases with equal content but different history must give different roots
+	// variants: alternative op tails that all lead to the same logical content but
+	// leave it in different places (cache / db / reopened / flushed-not-committed)
+	variants [][]string
+	vnames   []string
 }
 
 func C10(c *mc.Ctx) {
@@ -128,13 +132,18 @@ func C10(c *mc.Ctx) {
 		maxSet = 3
 	}
 	pre := []string{"set A a x", "set A ab y", "bal A 5", "non A 1", "code A c1", "set B a x", "commit"}
+	std := [][]string{nil, {"reopen"}, {"purge"}}
+	stdN := []string{"cache-resident", "reopened", "cache-purged"}
+	del := []string{"del A a", "set A b x"}
+	cat := func(a []string, b ...string) []string { return append(append([]string{}, a...), b...) }
 	bases := []c10Base{
-		{"empty", nil, "empty"},
-		{"populated", pre, "pop"},
-		{"populated-other-history", append([]string{"set A a y", "commit"}, pre...), "pop"},
+		{"empty", nil, "empty", [][]string{nil}, []string{"fresh"}},
+		{"populated", pre, "pop", std, stdN},
+		{"populated-other-history", append([]string{"set A a y", "commit"}, pre...), "pop", std, stdN},
+		{"populated-then-delete", pre, "popdel",
+			[][]string{cat(del, "commit"), cat(del, "flush"), cat(del, "commit", "reopen"), cat(del, "commit", "purge")},
+			[]string{"committed", "flushed-not-committed", "committed-reopened", "committed-purged"}},
 	}
-	residency := [][]string{nil, {"reopen"}, {"purge"}}
-	resName := []string{"cache-resident", "reopened", "cache-purged"}
 	sets := c10WriteSets(maxSet)
 	c.Set("write_sets", len(sets))
 	evals := 0
@@ -156,10 +165,8 @@ func C10(c *mc.Ctx) {
 			var refDesc string
 			var refDiff map[string]string
 			for _, perm := range permutations(len(ws)) {
-				for ri, res := range residency {
-					if base.ops == nil && ri > 0 {
-						continue
-					}
+				resName := base.vnames
+				for ri, res := range base.variants {
 					for _, reads := range []string{"none", "before-each", "all-first"} {
 						in := newSLInst()
 						var ops []string
